@@ -4,6 +4,7 @@ import (
 	"encoding/json"
 	"fmt"
 	"os"
+	"runtime/pprof"
 
 	_ "verif/checks"
 	"verif/engine"
@@ -34,7 +35,15 @@ func main() {
 	switch mode {
 	case "quick", "thorough":
 		r := engine.NewRun(id, mode)
-		c.Main(r)
+		if pf := os.Getenv("VERIF_PPROF"); pf != "" {
+			f, _ := os.Create(pf)
+			pprof.StartCPUProfile(f)
+			c.Main(r)
+			pprof.StopCPUProfile()
+			f.Close()
+		} else {
+			c.Main(r)
+		}
 		os.Exit(r.Finish())
 	case "replay":
 		if len(os.Args) < 4 {
